@@ -282,7 +282,11 @@ def _check_op(model, R, op, P):
             if not (isinstance(it, ast.Call) and dotted(it.func) == 'zip' and len(it.args) == 2 and all(isinstance(x, ast.Name) for x in it.args)):
                 continue
             inputs_name, res_name = it.args[0].id, it.args[1].id
-            inputs_ok = inputs_name == c.name or (isinstance(op.children_expr, ast.Name) and op.children_expr.id == inputs_name)
+            # the closure must pair the results with the SNAPSHOT of the operands that was stored as children (a tuple bound once),
+            # not with the caller's mutable list object (which may have changed by the time backward runs)
+            inputs_ok = isinstance(op.children_expr, ast.Name) and op.children_expr.id == inputs_name and \
+                [k for st, v, k in opcat._assignments(func.node, inputs_name)] == ['assign'] and \
+                isinstance(opcat._assignments(func.node, inputs_name)[0][1], ast.Call) and dotted(opcat._assignments(func.node, inputs_name)[0][1].func) == 'tuple'
             res_ok = any(res_name in r[0] and r[1] for r in results_by_call.values())
             facts = {(t, p) for t, p, _ in a.facts}
             tgt_ok = isinstance(a.target, ast.Name) and a.target.id == tv and isinstance(a.rhs, ast.Name) and a.rhs.id == gv
